@@ -507,11 +507,11 @@ UNITS["eph"] = dict(
                (_EPH, "EphemeralStreamPublisher::publish", r"pub async fn publish\(&self, message: M\)"),
                ("p2panda-core/src/timestamp.rs", "HybridTimestamp::increment", r"pub fn increment\(self\) -> Self \{", r"impl HybridTimestamp")],
     harnesses=[
-        dict(name="unit::proofs::valid_first", prop="C17", timeout=300, encodes="EphemeralStreamSubscription::poll_next", bounds="script: one valid message"),
-        dict(name="unit::proofs::one_junk_then_valid", prop="C17", timeout=300, encodes="EphemeralStreamSubscription::poll_next", bounds="script: 1 item, each invalid or lagged (symbolic), then a valid message; wake-driven executor, <= 3 polls"),
+        dict(name="unit::proofs::valid_first", prop="C17", timeout=900, encodes="EphemeralStreamSubscription::poll_next", bounds="script: one valid message"),
+        dict(name="unit::proofs::one_junk_then_valid", prop="C17", timeout=900, encodes="EphemeralStreamSubscription::poll_next", bounds="script: 1 item, each invalid or lagged (symbolic), then a valid message; wake-driven executor, <= 3 polls"),
         dict(name="unit::proofs::two_junk_then_valid", prop="C17", tier="thorough", timeout=900, encodes="as above", bounds="2 junk items then a valid message"),
         dict(name="unit::proofs::three_junk_then_valid", prop="C17", tier="thorough", timeout=1200, encodes="as above", bounds="3 junk items then a valid message"),
-        dict(name="unit::proofs::junk_then_closed_ends", prop="C17", timeout=300, encodes="as above", bounds="1 junk item, then the underlying stream is closed"),
+        dict(name="unit::proofs::junk_then_closed_ends", prop="C17", timeout=900, encodes="as above", bounds="1 junk item, then the underlying stream is closed"),
         dict(name="unit::c16::tampered_message_is_rejected", prop="C16", timeout=600, encodes="WrappedMessage::{new, sign, verify} on the model codec with the idealised signature",
              bounds="body u8, all u64 timestamp/lamport values, 6 single-field mutations incl. any signature byte"),
         dict(name="unit::c16::successive_publishes_have_increasing_timestamps", prop="C16", timeout=600,
@@ -691,7 +691,7 @@ UNITS["codec"] = dict(
              bounds="one [u8;2] message (all payload values), byte stream split into two chunks at every position 0..=6"),
         dict(name="c26::encode_limit_is_exact", prop="C26", timeout=600, encodes="Codec::encode", bounds="max_frame_len in 0..=5 against a 2-byte frame, all payload values"),
         dict(name="c26::decode_limit_is_exact", prop="C26", timeout=600, encodes="Codec::decode", bounds="any announced u32 length, any u32 maximum, 2 payload bytes present"),
-        dict(name="c26::two_frames_in_order_every_split_point", prop="C26", tier="thorough", timeout=2400, encodes="Codec::{encode, decode}",
+        dict(name="c26::two_frames_in_order_every_split_point", prop="C26", timeout=900, encodes="Codec::{encode, decode}",
              bounds="two [u8;2] messages, chunk boundary at every position 0..=12"),
     ],
 )
@@ -699,7 +699,7 @@ PROPS["C26"] = dict(
     units=["codec"],
     trusted_base=["Kani 0.68 / CBMC 6.11 / cadical", "no models: real tokio_util::bytes::BytesMut, tokio_util::codec traits and postcard are executed symbolically"],
     assumptions=["fixed-size messages ([u8; 2]) so that frame lengths are concrete (postcard varints would make lengths symbolic)", "at most two chunks per stream"],
-    bounds="one frame x 7 split points (quick), two frames x 13 split points (thorough); all payload values; limits: every announced u32 length against every u32 maximum",
+    bounds="one frame x 7 split points, two frames x 13 split points; all payload values; limits: every announced u32 length against every u32 maximum",
     outside="variable-length messages (operations, sync messages), FramedRead/FramedWrite and the I/O layer, more than two chunks",
     level_text=("Bounded model checking of the real Codec::encode/decode over the real BytesMut and postcard: for every split point the decoder yields nothing until the frame is complete, then exactly the encoded message, "
                 "consuming exactly the frame; and the size limit rejects exactly the frames above the maximum on both sides, for every 32-bit announced length. PARTIAL: fixed-size messages only."),
